@@ -11,7 +11,7 @@ EMISSION_FLAGS = 3
 FREEZE = 8   # FREEZE_SETTINGS = 1 << 3 (cross-checked against the type crate constant below)
 
 WS_OPAQUE = [r'anchor_lang::', r'anchor_spl::', r'transfer_checked', r'CpiContext', r'to_account_info', r'calculate_pre_fee', r'calculate_post_fee', r'emit', r'Event',
-             r'sort_by_key', r'check_dupes$', r'has_entries$', r'::validate$', r'validate_entries_with_liability_weights$', r'validate_seven_point$', r'validate_legacy$']
+             r'sort_by_key', r'check_dupes$', r'has_entries$', r'::validate$', r'validate_entries_with_liability_weights$', r'validate_seven_point$', r'validate_legacy$', r'make_points$', r'milli_to_u32$', r'centi_to_u32$', r'wrapped_i80f48_to_f64$']
 
 
 def leaves(eng, v, prefix, out, depth=0):
@@ -102,6 +102,20 @@ ROLES = {
         allowed=[r'Bank\.(emissions_rate|emissions_remaining|emissions_mint)'], frozen_allowed=None, flags=lambda a, b: a / 4 == b / 4),
     'setup_emissions': dict(fn=r'configure_bank::lending_pool_setup_emissions$', role='emissions admin',
         allowed=[r'Bank\.(emissions_rate|emissions_remaining|emissions_mint)'], frozen_allowed=None, flags=lambda a, b: a / 4 == b / 4),
+    'configure_bank_oracle': dict(fn=r'config_bank_oracle::lending_pool_configure_bank_oracle$', role='group admin (oracle)',
+        allowed=[r'Bank\.config\.(oracle_setup|oracle_keys\[0\])'], frozen_allowed=[], flags=lambda a, b: a == b),
+    'set_fixed_oracle_price': dict(fn=r'set_fixed_oracle_price::lending_pool_set_fixed_oracle_price$', role='group admin (fixed price)',
+        allowed=[r'Bank\.config\.(oracle_setup|oracle_keys\[0\]|fixed_price)'], frozen_allowed=[], flags=lambda a, b: a == b),
+    'update_fees_destination_account': dict(fn=r'collect_bank_fees::lending_pool_update_fees_destination_account$', role='group admin (fee destination)',
+        allowed=[r'Bank\.fees_destination_account'], frozen_allowed=None, flags=lambda a, b: a == b),
+    'force_tokenless_repay_complete': dict(fn=r'configure_bank_lite::lending_pool_force_tokenless_repay_complete$', role='risk admin',
+        allowed=[], frozen_allowed=None, flags=lambda a, b: z3.And(a % 64 == b % 64, a / 128 == b / 128, (a / 64) % 2 <= (b / 64) % 2, z3.Implies((a / 32) % 2 == 0, a == b))),
+    'pulse_bank_price_cache': dict(fn=r'pulse_bank_price_cache::lending_pool_pulse_bank_price_cache$', role='permissionless (price cache)',
+        allowed=[r'Bank\.cache\..*'], frozen_allowed=None, flags=lambda a, b: a == b),
+    'propagate_staked_settings': dict(fn=r'propagate_staked_settings::propagate_staked_settings$', role='permissionless (staked settings)',
+        allowed=[r'Bank\.config\.(oracle_keys\[0\]|asset_weight_init|asset_weight_maint|deposit_limit|total_asset_value_init_limit|oracle_max_age|risk_tier)'], frozen_allowed=None, flags=lambda a, b: a == b),
+    'migrate_curve': dict(fn=r'migrate_curve::migrate_curve$', role='permissionless (curve migration)',
+        allowed=[r'Bank\.config\.interest_rate_config\..*'], frozen_allowed=None, flags=lambda a, b: a == b),
     'configure_bank': dict(fn=r'configure_bank::lending_pool_configure_bank$', role='group admin',
         allowed=[r'Bank\.config\.(asset_weight_init|asset_weight_maint|liability_weight_init|liability_weight_maint|deposit_limit|borrow_limit|operational_state|risk_tier|asset_tag|total_asset_value_init_limit|oracle_max_confidence|oracle_max_age)',
                  r'Bank\.config\.interest_rate_config\..*'],
